@@ -3,7 +3,7 @@ from .pdb import strip, walk, loc, ancestors
 from .terms import Ctx, num, show, lin_add, lin_sub
 from .common import (P, F, LEN, effects, callee_path, call_args, in_macro, forwards_to, is_zero_term, OP_OF_TRAIT, _reaching_values)
 from .guards import facts, cond_atoms, norm_cmp
-from .common import value_before
+from .common import value_before, rule_empty_safe
 from .guards import for_range as raw_for_range
 from .common import for_range_total as for_range
 
@@ -312,6 +312,15 @@ def run(rep, pdb, tier):
             tail = fn["body"].get("expr")
             ok = r is not None and r[1:5] == (num(0), LEN(CO0), False, False) and nz and tail is not None and ctx.term(tail) == ("bool", True)
         rep.add("is_zero", rule, ok, fn["body"], "", where=loc(fn["body"]))
+    # ---- the empty polynomial acts as zero: nothing in the property's operations is certain to panic on it
+    n_es = 0
+    for f_ in pdb.local_fns():
+        if f_.get("file") in ("src/polynomial/mod.rs", "src/polynomial/arithmetic.rs") and f_.get("impl_trait") not in ("std::fmt::Display", "std::fmt::Debug") \
+                and f_.get("name") not in ("format_leading_coeff", "quadratic_solve", "cubic_solve", "poly_solve", "laguer", "roots", "polydiv", "index", "index_mut"):
+            n_es += rule_empty_safe(rep, pdb, f_, "empty-safe", [LEN(CO0)], "polynomial")
+            if len(f_.get("params", [])) > 1 and "Polynomial" in str(f_.get("inputs", ["", ""])[1]):
+                n_es += rule_empty_safe(rep, pdb, f_, "empty-safe/rhs", [LEN(CO1)], "right-hand polynomial")
+    rep.floor("empty-safe/", 12)
     rep.floor("polarity/", 6)
     rep.floor("length/", 2)
     rep.floor("delegation/", 5)
